@@ -288,19 +288,136 @@ def run(chk: Check) -> None:
         "(R3) get_term_ex(make_term(c, v, e)) returns (c, v, e) with an absent coefficient read as 1; (R4) factor() seeds "
         "(1, v), (v, 1), tries i in 2..floor(sqrt(v)) and its loop body, interpreted once on a symbolic trial divisor, "
         "records (i, v/i) and (v/i, i) on every path on which i divides v and nothing otherwise - a path that leaves the "
-        "body without testing divisibility is reported with a concrete skipped divisor pair. Not decided: whether "
-        "has_like_terms is invariant under reordering/regrouping and terms_are_like reflexive/symmetric (relations "
-        "between runs over loops on data: no finite abstraction in reach), 'predicates never raise', numpy.sqrt rounding "
-        "at the range end for huge values.")
-    chk.not_decided = ["order/grouping invariance of has_like_terms", "reflexivity/symmetry of terms_are_like",
-                       "term predicates never raise"]
+        "body without testing divisibility is reported with a concrete skipped divisor pair; (R6-R8) on sums of two or "
+        "three natural-order terms (ten term forms, symbolic coefficients and exponents) has_like_terms gives the same "
+        "answer in every order and grouping, terms_are_like is reflexive and symmetric, and the predicates do not raise; "
+        "(R9) no term predicate raises on any expression tree of depth <= 2 over constants, variables, negation and the "
+        "five binary operators, for every sign class of the payloads. Not decided: order invariance for sums of more than "
+        "three terms or other term forms, deeper trees, numpy.sqrt rounding at the range end for huge values.")
+    chk.not_decided = ["order/grouping invariance beyond three terms of the listed forms", "trees deeper than 2 levels for R9"]
     chk.assumptions = ["W for get_term_ex's argument", "numpy.sqrt(value) >= exact square root for the trial range"]
     run_make_term(chk, prog, S)
     run_get_term_ex(chk, prog, S)
     run_factor(chk, prog, S)
     run_like_terms(chk, prog, S)
+    run_no_raise(chk, prog)
     chk.exhaustive = True
     chk.max_undecided = 0
+
+
+# --------------------------------------------------------------------------- R9 no raise on any small expression
+_UNARY = ("Negate",)
+_BINARY = ("Add", "Subtract", "Multiply", "Divide", "Power")
+_PREDICATES = ("get_term", "get_term_ex", "is_simple_term", "is_preferred_term_form", "has_like_terms", "get_terms",
+               "get_sub_terms", "is_add_or_sub")
+
+
+def _all_trees(depth: int) -> list:
+    leaves = [("const",), ("var", "x")]
+    if depth == 0:
+        return leaves
+    sub = _all_trees(depth - 1)
+    out = list(leaves)
+    out += [(u, t) for u in _UNARY for t in sub]
+    out += [(b, l, r) for b in _BINARY for l in sub for r in sub]
+    return out
+
+
+def _number(spec, counter):
+    """Give every constant leaf its own payload name."""
+    if spec[0] == "const":
+        counter[0] += 1
+        return ("const", f"k{counter[0]}")
+    if spec[0] == "var":
+        return spec
+    return (spec[0],) + tuple(_number(c, counter) for c in spec[1:])
+
+
+def _tree_str(spec) -> str:
+    if spec[0] == "const":
+        return "k"
+    if spec[0] == "var":
+        return spec[1]
+    if len(spec) == 2:
+        return f"-({_tree_str(spec[1])})"
+    op = {"Add": "+", "Subtract": "-", "Multiply": "*", "Divide": "/", "Power": "^"}[spec[0]]
+    return f"({_tree_str(spec[1])} {op} {_tree_str(spec[2])})"
+
+
+def _no_raise_worker(task):
+    repo, specs = task
+    from sa.parsecases import _setup
+    from .c08 import Pat
+    prog, S = _setup(repo)
+    fns = [(n, prog.func("util", n)) for n in _PREDICATES]
+    tal = prog.func("util", "terms_are_like")
+    cfg = {"max_updepth": 0, "hooks": S.hooks(), "max_steps": 80000, "max_inline": 60}
+    oks = []
+    bad = []
+    for spec in specs:
+        n_ok = 0
+        n_bad0 = len(bad)
+
+        def body(it: Interp, spec=spec):
+            pat = Pat(it, concrete_idents=True)
+            root = pat.build(_number(spec, [0]))
+            it._set_entry(it.cells[root.cid], "parent", None)
+            out = []
+            for name, fn in fns:
+                try:
+                    it.call_function(fn, [root], {})
+                except AbsRaise as e:
+                    out.append((name, e.exc, e.site, e.detail[:120]))
+            cell = it.cells[root.cid]
+            l, r = cell.entry.get("left"), cell.entry.get("right")
+            if isinstance(l, Node) and isinstance(r, Node):
+                for a, b in ((l, r), (r, l)):
+                    try:
+                        it.call_function(tal, [a, b], {})
+                    except AbsRaise as e:
+                        out.append(("terms_are_like", e.exc, e.site, e.detail[:120]))
+            return out
+        for p in explore(prog, body, cfg, max_paths=400):
+            if p.outcome == "return" and not p.value:
+                n_ok += 1
+            elif p.outcome == "return":
+                for name, exc, site, detail in p.value:
+                    bad.append({"tree": _tree_str(spec), "fn": name, "exc": exc, "site": site, "detail": detail, "cond": p.cond[-160:]})
+            else:
+                bad.append({"tree": _tree_str(spec), "fn": "?", "exc": p.outcome, "site": "", "detail": str(p.exc or p.note)[:160],
+                            "cond": p.cond[-160:], "undecided": True})
+        if len(bad) == n_bad0:
+            oks.append((_tree_str(spec), n_ok))
+    return oks, bad
+
+
+def run_no_raise(chk: Check, prog: Program) -> None:
+    import multiprocessing as mp
+    import os
+    from sa.report import REPO
+    chk.rule("C16.R9", "no term predicate raises on any expression of depth <= 2 over constants, variables, negation and the "
+             "five binary operators (every payload sign class)", minimum=2000)
+    trees = _all_trees(2)
+    chk.analysed["no_raise_trees"] = len(trees)
+    chunk = max(20, len(trees) // 64)
+    tasks = [(str(REPO), trees[i:i + chunk]) for i in range(0, len(trees), chunk)]
+    nproc = min(int(os.environ.get("VERIF_JOBS", "16")), os.cpu_count() or 1)
+    if nproc > 1:
+        with mp.get_context("fork").Pool(nproc) as pool:
+            res = pool.map(_no_raise_worker, tasks, chunksize=1)
+    else:
+        res = [_no_raise_worker(t) for t in tasks]
+    for r in res:
+        for t in r[0]:
+            chk.ok("C16.R9", "C16.R9", f"no predicate raises on {t[0]} ({t[1]} payload classes)", where="mathy_core/util.py")
+    for b in [x for r in res for x in r[1]]:
+        label = f"{b['fn']} on {b['tree']} :: {b['cond'] or 'no condition'}"
+        if b.get("undecided"):
+            chk.undecided("C16.R9", f"C16.R9:{b['tree']}", label, f"{b['exc']} {b['detail']}", "mathy_core/util.py")
+        else:
+            chk.fail("C16.R9", f"C16.R9:{b['fn']}:{b['exc']}@{b['site'].split(':L')[0]}", label,
+                     f"raises {b['exc']} at {b['site']}: {b['detail']}", witness={"tree": b["tree"], "path": b["cond"]},
+                     where="mathy_core/util.py:" + b["fn"])
 
 
 # --------------------------------------------------------------------------- like-term predicates on bounded sums
